@@ -15,11 +15,16 @@ import (
 
 type kvPair struct {
 	k, v []byte
+	del  bool // tombstone (cache layers only)
 }
 
-// MemStore is an ordered in-memory KV store (sorted slice; keys compared bytewise).
+// MemStore is an ordered in-memory KV store (sorted slice; keys compared
+// bytewise). With a parent it is a cache layer in the sense of the SDK's
+// cachekv store: it records only the keys written or deleted through it, reads
+// fall through to the (live) parent, and Write flushes the recorded keys.
 type MemStore struct {
-	pairs []kvPair
+	pairs  []kvPair
+	parent *MemStore
 }
 
 var _ storetypes.KVStore = (*MemStore)(nil)
@@ -53,7 +58,13 @@ func (s *MemStore) Get(key []byte) []byte {
 		panic("key is nil or empty")
 	}
 	if i, ok := s.find(key); ok {
+		if s.pairs[i].del {
+			return nil
+		}
 		return cp(s.pairs[i].v)
+	}
+	if s.parent != nil {
+		return s.parent.Get(key)
 	}
 	return nil
 }
@@ -62,8 +73,24 @@ func (s *MemStore) Has(key []byte) bool {
 	if len(key) == 0 {
 		panic("key is nil or empty")
 	}
-	_, ok := s.find(key)
-	return ok
+	if i, ok := s.find(key); ok {
+		return !s.pairs[i].del
+	}
+	if s.parent != nil {
+		return s.parent.Has(key)
+	}
+	return false
+}
+
+func (s *MemStore) put(key []byte, p kvPair) {
+	i, ok := s.find(key)
+	if ok {
+		s.pairs[i] = p
+		return
+	}
+	s.pairs = append(s.pairs, kvPair{})
+	copy(s.pairs[i+1:], s.pairs[i:])
+	s.pairs[i] = p
 }
 
 func (s *MemStore) Set(key, value []byte) {
@@ -73,19 +100,16 @@ func (s *MemStore) Set(key, value []byte) {
 	if value == nil {
 		panic("value is nil")
 	}
-	i, ok := s.find(key)
-	if ok {
-		s.pairs[i].v = cp(value)
-		return
-	}
-	s.pairs = append(s.pairs, kvPair{})
-	copy(s.pairs[i+1:], s.pairs[i:])
-	s.pairs[i] = kvPair{k: cp(key), v: cp(value)}
+	s.put(key, kvPair{k: cp(key), v: cp(value)})
 }
 
 func (s *MemStore) Delete(key []byte) {
 	if len(key) == 0 {
 		panic("key is nil or empty")
+	}
+	if s.parent != nil {
+		s.put(key, kvPair{k: cp(key), del: true})
+		return
 	}
 	if i, ok := s.find(key); ok {
 		s.pairs = append(s.pairs[:i:i], s.pairs[i+1:]...)
@@ -98,17 +122,68 @@ func (s *MemStore) CacheWrapWithTrace(w io.Writer, tc storetypes.TraceContext) s
 	panic("models.MemStore: CacheWrapWithTrace not supported")
 }
 
-func (s *MemStore) snapshot(start, end []byte, reverse bool) *memIterator {
-	it := &memIterator{start: start, end: end}
-	for _, p := range s.pairs {
-		if start != nil && bytes.Compare(p.k, start) < 0 {
-			continue
+// items returns the visible key/value pairs in [start,end), ascending.
+func (s *MemStore) items(start, end []byte) []kvPair {
+	inRange := func(k []byte) bool {
+		if start != nil && bytes.Compare(k, start) < 0 {
+			return false
 		}
-		if end != nil && bytes.Compare(p.k, end) >= 0 {
-			continue
+		if end != nil && bytes.Compare(k, end) >= 0 {
+			return false
 		}
-		it.items = append(it.items, kvPair{k: cp(p.k), v: cp(p.v)})
+		return true
 	}
+	var own []kvPair
+	for _, p := range s.pairs {
+		if inRange(p.k) {
+			own = append(own, p)
+		}
+	}
+	if s.parent == nil {
+		out := make([]kvPair, 0, len(own))
+		for _, p := range own {
+			out = append(out, kvPair{k: cp(p.k), v: cp(p.v)})
+		}
+		return out
+	}
+	base := s.parent.items(start, end)
+	// merge: own entries override / hide parent entries
+	var out []kvPair
+	i, j := 0, 0
+	for i < len(base) || j < len(own) {
+		switch {
+		case j >= len(own):
+			out = append(out, base[i])
+			i++
+		case i >= len(base):
+			if !own[j].del {
+				out = append(out, kvPair{k: cp(own[j].k), v: cp(own[j].v)})
+			}
+			j++
+		default:
+			c := bytes.Compare(base[i].k, own[j].k)
+			if c < 0 {
+				out = append(out, base[i])
+				i++
+			} else if c > 0 {
+				if !own[j].del {
+					out = append(out, kvPair{k: cp(own[j].k), v: cp(own[j].v)})
+				}
+				j++
+			} else {
+				if !own[j].del {
+					out = append(out, kvPair{k: cp(own[j].k), v: cp(own[j].v)})
+				}
+				i++
+				j++
+			}
+		}
+	}
+	return out
+}
+
+func (s *MemStore) snapshot(start, end []byte, reverse bool) *memIterator {
+	it := &memIterator{start: start, end: end, items: s.items(start, end)}
 	if reverse {
 		for i, j := 0, len(it.items)-1; i < j; i, j = i+1, j-1 {
 			it.items[i], it.items[j] = it.items[j], it.items[i]
@@ -125,25 +200,34 @@ func (s *MemStore) ReverseIterator(start, end []byte) storetypes.Iterator {
 	return s.snapshot(start, end, true)
 }
 
-// Len returns the number of keys (harness oracles).
-func (s *MemStore) Len() int { return len(s.pairs) }
-
-// Clone returns a deep copy.
-func (s *MemStore) Clone() *MemStore {
-	out := &MemStore{pairs: make([]kvPair, len(s.pairs))}
-	for i, p := range s.pairs {
-		out.pairs[i] = kvPair{k: cp(p.k), v: cp(p.v)}
+// flush applies the recorded writes of a cache layer to its parent.
+func (s *MemStore) flush() {
+	for _, p := range s.pairs {
+		if p.del {
+			s.parent.Delete(p.k)
+		} else {
+			s.parent.Set(p.k, p.v)
+		}
 	}
-	return out
+	s.pairs = nil
 }
 
-// Equal reports whether two stores hold the same keys and values.
+// Len returns the number of visible keys (harness oracles).
+func (s *MemStore) Len() int { return len(s.items(nil, nil)) }
+
+// Clone returns a flattened deep copy (no parent).
+func (s *MemStore) Clone() *MemStore {
+	return &MemStore{pairs: s.items(nil, nil)}
+}
+
+// Equal reports whether two stores show the same keys and values.
 func (s *MemStore) Equal(o *MemStore) bool {
-	if len(s.pairs) != len(o.pairs) {
+	a, b := s.items(nil, nil), o.items(nil, nil)
+	if len(a) != len(b) {
 		return false
 	}
-	for i := range s.pairs {
-		if !bytes.Equal(s.pairs[i].k, o.pairs[i].k) || !bytes.Equal(s.pairs[i].v, o.pairs[i].v) {
+	for i := range a {
+		if !bytes.Equal(a[i].k, b[i].k) || !bytes.Equal(a[i].v, b[i].v) {
 			return false
 		}
 	}
@@ -180,9 +264,10 @@ func (it *memIterator) Value() []byte {
 func (it *memIterator) Error() error { return nil }
 func (it *memIterator) Close() error { return nil }
 
-// MultiStore maps store-key names to MemStores. CacheMultiStore copies all
-// stores; Write copies them back into the parent (isolation until Write — the
-// contract the SDK documents for cache-wrapped stores).
+// MultiStore maps store-key names to MemStores. CacheMultiStore layers a
+// cache store over every store of the parent; Write flushes the keys written
+// through the cache (isolation until Write — the contract the SDK documents
+// for cache-wrapped stores).
 type MultiStore struct {
 	names  []string
 	stores []*MemStore
@@ -203,6 +288,9 @@ func (m *MultiStore) store(name string) *MemStore {
 		}
 	}
 	s := &MemStore{}
+	if m.parent != nil {
+		s.parent = m.parent.store(name)
+	}
 	m.names = append(m.names, name)
 	m.stores = append(m.stores, s)
 	return s
@@ -221,7 +309,7 @@ func (m *MultiStore) CacheMultiStore() storetypes.CacheMultiStore {
 	c := &MultiStore{parent: m}
 	for i, n := range m.names {
 		c.names = append(c.names, n)
-		c.stores = append(c.stores, m.stores[i].Clone())
+		c.stores = append(c.stores, &MemStore{parent: m.stores[i]})
 	}
 	return c
 }
@@ -248,15 +336,15 @@ func (m *MultiStore) Write() {
 	if m.parent == nil {
 		panic("models.MultiStore: Write on a root store")
 	}
-	for i, n := range m.names {
-		dst := m.parent.store(n)
-		dst.pairs = m.stores[i].Clone().pairs
+	for i := range m.names {
+		m.stores[i].flush()
 	}
 }
 
-// Clone deep-copies the multistore (harness oracles: "state unchanged").
+// Clone deep-copies the visible contents of the multistore into a root store
+// (harness oracles: "state unchanged").
 func (m *MultiStore) Clone() *MultiStore {
-	c := &MultiStore{parent: m.parent}
+	c := &MultiStore{}
 	for i, n := range m.names {
 		c.names = append(c.names, n)
 		c.stores = append(c.stores, m.stores[i].Clone())
